@@ -248,17 +248,21 @@ Proof.
     try destruct (s && e); try destruct (s || e); try destruct inner; simpl; rewrite ?Qhalf; unfold_consts; lra.
 Qed.
 
+(** the weight may be negative (a negative Boost is accepted): only an upper bound on the weight is needed
+    for the upper bound on a candidate's score; the lower bound 0 of a LINE score comes from scoreLine keeping
+    only candidates that beat the running best, which starts at 0 *)
 Lemma cand_bounds d c W :
-  kind_ok c -> 0 <= c_weight c <= W -> 1 <= W -> 0 <= fst (score_cand d c) <= base_bound * W.
+  kind_ok c -> c_weight c <= W -> 1 <= W -> fst (score_cand d c) <= base_bound * W.
 Proof.
   intros K Hw HW. unfold score_cand, weight_part.
   pose proof (base_bounds d c K) as B. set (s := fst (kind_part d c (word_part d c (0, [])))) in *.
   assert (B0 : 0 <= base_bound) by lra.
-  destruct (eps_one (c_weight c)); simpl; fold s; nra.
+  destruct (eps_one (c_weight c)); simpl; fold s; [nra|].
+  destruct (Qlt_le_dec (c_weight c) 0) as [N|P]; nra.
 Qed.
 
 Definition cands_ok (W : Q) (cs : list cand) : Prop :=
-  Forall (fun c => kind_ok c /\ 0 <= c_weight c <= W) cs.
+  Forall (fun c => kind_ok c /\ c_weight c <= W) cs.
 
 Lemma line_bounds d cs W : cands_ok W cs -> 1 <= W -> 0 <= fst (score_line d cs) <= base_bound * W.
 Proof.
@@ -266,7 +270,8 @@ Proof.
   assert (G : forall a : Q * list dtoken, 0 <= fst a <= base_bound * W ->
               0 <= fst (fold_left (fun b c => better b (score_cand d c)) cs a) <= base_bound * W).
   { induction H as [|c r [K Hw] Hr IH]; intros a Ha; simpl; [exact Ha|]. apply IH.
-    unfold better. destruct (Qltb (fst a) (fst (score_cand d c))); [now apply cand_bounds|exact Ha]. }
+    unfold better. destruct (Qltb (fst a) (fst (score_cand d c))) eqn:E; [|exact Ha].
+    apply Qltb_true in E. split; [lra|now apply cand_bounds]. }
   apply G. simpl. assert (0 <= base_bound) by (unfold_consts; lra). nra.
 Qed.
 
@@ -364,4 +369,58 @@ Lemma kind_okb_ok c : kind_okb c = true -> kind_ok c.
 Proof.
   unfold kind_okb, kind_ok. destruct (c_kind c) as [| |s e [q|]]; auto.
   intros H. apply andb_true_iff in H as [H1 H2]. split; now apply Qle_bool_iff.
+Qed.
+
+(** ** 5. Every binary64 product of boosts: after the cap of setScoreWeight the effective weight is at most
+    maxBoostWeight, whatever the query carries (NaN, +-Inf, negative, huge) *)
+Lemma maxBoostWeight_ge_1 : 1 <= c_maxBoostWeight.
+Proof. unfold Qle. vm_compute. discriminate. Qed.
+
+Lemma eff_weight_le w : eff_weight w <= c_maxBoostWeight.
+Proof.
+  pose proof maxBoostWeight_ge_1 as M.
+  destruct w as [| | |q]; simpl; try lra.
+  destruct (Qltb c_maxBoostWeight q) eqn:E; [lra|]. now apply Qltb_false.
+Qed.
+
+Lemma eff_weight_fin_small q : q <= c_maxBoostWeight -> eff_weight (XFin q) = q.
+Proof.
+  intros H. simpl. destruct (Qltb c_maxBoostWeight q) eqn:E; [|reflexivity].
+  apply Qltb_true in E. lra.
+Qed.
+
+(** candidates as the implementation can produce them: any kind score within the generated bound, the weight
+    is the capped image of SOME binary64 product *)
+Definition cands_x (cs : list cand) : Prop :=
+  Forall (fun c => kind_ok c /\ exists w : xweight, c_weight c = eff_weight w) cs.
+
+Lemma cands_x_ok cs : cands_x cs -> cands_ok c_maxBoostWeight cs.
+Proof.
+  intros H. eapply Forall_impl; [|exact H]. intros c [K [w E]]. split; [exact K|]. rewrite E. apply eff_weight_le.
+Qed.
+
+Definition fin_x (f : fin) : Prop :=
+  Forall (fun m => Forall (fun l : Z * list cand => cands_x (snd l)) m) (fi_matches f) /\
+  (0 <= fi_rank f <= 65535)%Z /\ (0 <= fi_doc f < fi_ndocs f)%Z.
+
+Lemma fin_x_ok f : fin_x f -> fin_ok c_maxBoostWeight f.
+Proof.
+  intros (HM & HR & HD). split; [|split; assumption].
+  eapply Forall_impl; [|exact HM]. intros m Hm. eapply Forall_impl; [|exact Hm]. intros l Hl. now apply cands_x_ok.
+Qed.
+
+Lemma file_bound_cap_finite : file_bound c_maxBoostWeight < inject_Z (2 ^ 1023).
+Proof. unfold Qlt. vm_compute. reflexivity. Qed.
+
+Theorem scores_finite_every_boost dbg f :
+  fin_x f ->
+  0 <= snd (fst (score_file dbg f)) <= file_bound c_maxBoostWeight /\
+  Forall (fun m => 0 <= fst (match_score dbg m) <= base_bound * c_maxBoostWeight) (fi_matches f) /\
+  file_bound c_maxBoostWeight < inject_Z (2 ^ 1023) /\
+  base_bound * c_maxBoostWeight + c_scoreLineOrderFactor < inject_Z (2 ^ 1023).
+Proof.
+  intros H. pose proof (fin_x_ok f H) as Hok. pose proof maxBoostWeight_ge_1 as M.
+  split; [now apply file_score_bounds|]. split; [|split; [exact file_bound_cap_finite|]].
+  - destruct Hok as (HM & _). eapply Forall_impl; [|exact HM]. intros m Hm. now apply match_bounds.
+  - unfold Qlt. vm_compute. reflexivity.
 Qed.
